@@ -2,6 +2,7 @@ import SslModel.Model.Int64
 import SslModel.Gen.ScalarOps
 import SslModel.Model.Pratt
 import SslModel.Gen.PrattTable
+import SslModel.Model.Seq
 /-! Model side of the correspondence: one request per line on stdin, one canonical answer per
     line on stdout.  Import-free apart from the model, so it links as a native executable. -/
 open Ssl
@@ -105,9 +106,26 @@ def handlePratt (rules : List String) : String :=
   | .panicLed t => s!"(panic led {t.rule})" | .panicLbp t => s!"(panic lbp {t.rule})"
   | .fuel => "(fuel)"
 
+def optInt (s : String) : Option (Option Int) :=
+  if s == "_" then some none else s.toInt?.map some
+
+def showInts (l : List Int) : String := "[" ++ " ".intercalate (l.map toString) ++ "]"
+
 def handle (line : String) : String :=
   match line.trimAscii.toString.splitOn " " with
   | "pratt" :: rules => handlePratt rules
+  | ["seq-at", n, i] =>
+    match n.toNat?, i.toInt? with
+    | some n, some i => match Seq.atIdx n i with
+      | some k => s!"{k}" | none => "(error IndexOutOfBounds)"
+    | _, _ => "(bad-request)"
+  | ["seq-slice", n, a, b, c] =>
+    match n.toNat?, optInt a, optInt b, optInt c with
+    | some n, some a, some b, some c =>
+      let m := Seq.sliceIdx n a b c
+      let p := Seq.pyIndices n a b c
+      showInts m ++ (if m == p then " py=same" else " py=" ++ showInts p)
+    | _, _, _, _ => "(bad-request)"
   | ["scalar", op, a, b] =>
     match scalarOp op, a.toInt?, b.toInt? with
     | some o, some x, some y => showScalar (o.interp (BitVec.ofInt 64 x) (BitVec.ofInt 64 y))
